@@ -9,6 +9,10 @@ namespace Glom.C19
 variable {T S R : Type}
 
 structure WFParts (F : Facts) : Prop where
+  loadCatch : catchWF F.targetLoaders F.loadCatch F.loaderRaises = true
+  specRead : readCatchWF F.specReadCatch = true
+  targetRead : readCatchWF F.targetReadCatch = true
+  stdinRead : readCatchWF F.stdinReadCatch = true
   specBranches : F.specBranches = [("python", "python-literal"), ("json", "json"), ("python-full", "exec")]
   reprBranches : F.reprBranches = ["python"]
   firstChars : F.firstChars = literalStart
@@ -20,12 +24,80 @@ structure WFParts (F : Facts) : Prop where
 
 theorem WF_parts {F : Facts} (h : WF F = true) : WFParts F := by
   simp only [WF, Bool.and_eq_true, beq_iff_eq] at h
-  obtain ⟨⟨⟨⟨⟨⟨h1, h2⟩, h3⟩, h4⟩, h5⟩, h6⟩, h7⟩ := h
-  exact ⟨h1, h2, h3, h4, h5, h6, h7⟩
+  obtain ⟨⟨⟨⟨⟨⟨⟨⟨⟨⟨c1, c2⟩, c3⟩, c4⟩, h1⟩, h2⟩, h3⟩, h4⟩, h5⟩, h6⟩, h7⟩ := h
+  exact ⟨c1, c2, c3, c4, h1, h2, h3, h4, h5, h6, h7⟩
 
 /-- the trusted fact about Python the first-character rule relies on:
     `ast.literal_eval(repr(s)) == s` for every str `s` -/
 def ReprOk (X : Ext T S R) : Prop := ∀ s, X.parse "python-literal" (X.repr s) = .ok (X.strSpec s)
+
+/-! ### what the externals raise — the trusted facts the error paths rely on -/
+
+/-- a failing read of text raises an OSError (missing file, directory, permissions) or a
+    UnicodeError (bytes that are no text), both `Exception` subclasses -/
+def isTextReadErr (X : Ext T S R) (c : String) : Bool :=
+  (X.mro c).contains "Exception" && ((X.mro c).contains "OSError" || (X.mro c).contains "UnicodeError")
+
+/-- trusted: how reading a file / standard input fails (checked on every case by the driver) -/
+structure ReadErrOk (X : Ext T S R) (w : World) : Prop where
+  file : ∀ p, X.readFile p = none → isTextReadErr X (X.readErr p) = true
+  stdin : ∀ c, w.stdinErr = some c → isTextReadErr X c = true
+
+/-- trusted: a loader handed a text raises `Exception` subclasses only (never KeyboardInterrupt,
+    SystemExit, GeneratorExit) and — needed only for a format whose handler does not name
+    `Exception` itself — only classes the probe saw it raise -/
+def LoadErrOk (F : Facts) (X : Ext T S R) : Prop :=
+  ∀ k t c, X.load k t = .error c →
+    (X.mro c).contains "Exception" = true ∧
+    (F.loaderRaises.contains (k, c, X.mro c) = true ∨
+     ∀ fmt, (fmt, k) ∈ F.targetLoaders → (catchOf F fmt).contains "Exception" = true)
+
+/-- for the code as it is (`except Exception`) only the first half is needed -/
+theorem loadErrOk_of_exception {F : Facts} {X : Ext T S R}
+    (hF : ∀ fmt k, (fmt, k) ∈ F.targetLoaders → (catchOf F fmt).contains "Exception" = true)
+    (hX : ∀ k t c, X.load k t = .error c → (X.mro c).contains "Exception" = true) : LoadErrOk F X :=
+  fun k t c h => ⟨hX k t c h, Or.inr (fun fmt hm => hF fmt k hm)⟩
+
+theorem caughtBy_of_mem (X : Ext T S R) (names : List String) (c n : String)
+    (h1 : (X.mro c).contains n = true) (h2 : names.contains n = true) : caughtBy X names c = true := by
+  unfold caughtBy
+  rw [List.any_eq_true]
+  exact ⟨n, by simpa using h1, h2⟩
+
+/-- a handler that satisfies `readCatchWF` catches every failure of a text read -/
+theorem caught_read (X : Ext T S R) (names : List String) (c : String)
+    (hn : readCatchWF names = true) (hc : isTextReadErr X c = true) : caughtBy X names c = true := by
+  simp only [readCatchWF, isTextReadErr, Bool.and_eq_true, Bool.or_eq_true] at hn hc
+  rcases hn with hn | ⟨ho, hu⟩
+  · exact caughtBy_of_mem X names c "Exception" hc.1 hn
+  · rcases hc.2 with h | h
+    · exact caughtBy_of_mem X names c "OSError" h ho
+    · exact caughtBy_of_mem X names c "UnicodeError" h hu
+
+/-- the handler of a format's loader catches whatever the loader raises -/
+theorem caught_load {F : Facts} (hc : catchWF F.targetLoaders F.loadCatch F.loaderRaises = true)
+    (X : Ext T S R) (hl : LoadErrOk F X) (fmt k t c : String) (hm : (fmt, k) ∈ F.targetLoaders)
+    (he : X.load k t = .error c) : caughtBy X (catchOf F fmt) c = true := by
+  obtain ⟨hexc, hpr⟩ := hl k t c he
+  unfold catchWF at hc
+  rw [List.all_eq_true] at hc
+  have h := hc (fmt, k) hm
+  unfold catchOf
+  cases hf : F.loadCatch.find? (fun x => x.1 == fmt) with
+  | none => simp [hf] at h
+  | some p =>
+    simp only [hf, Bool.or_eq_true] at h
+    simp only
+    rcases h with h | h
+    · exact caughtBy_of_mem X p.2 c "Exception" hexc h
+    · rcases hpr with hpr | hpr
+      · rw [List.all_eq_true] at h
+        have := h (k, c, X.mro c) (by simpa using hpr)
+        simpa [caughtBy] using this
+      · have := hpr fmt hm
+        unfold catchOf at this
+        rw [hf] at this
+        exact caughtBy_of_mem X p.2 c "Exception" hexc this
 
 theorem truthy_eq (o : Option String) : truthy o = (nonEmpty o).isSome := by
   cases o with
@@ -109,9 +181,26 @@ theorem not_dash_of_nonEmpty_none {o : Option String} (h : nonEmpty o = none) : 
     · simp [htd]
 
 /-- the middleware's target text is the reference's target text (an empty text is as good as none) -/
-theorem getTargetText_text (X : Ext T S R) (a : Argv) (wd : World) (tt : String)
+theorem readStdin_text (F : Facts) (X : Ext T S R) (wd : World) (tt : String) (h : refStdin wd = .text tt) :
+    readStdin F X wd = .ok (some tt) := by
+  unfold refStdin at h
+  unfold readStdin
+  cases he : wd.stdinErr with
+  | none => simp [he] at h; simp [h]
+  | some c => simp [he] at h
+
+theorem readStdin_unreadable (F : Facts) (X : Ext T S R) (wd : World) (hr : ReadErrOk X wd)
+    (hn : readCatchWF F.stdinReadCatch = true) (h : refStdin wd = .unreadable) :
+    readStdin F X wd = .error (.usage .stdinUnreadable) := by
+  unfold refStdin at h
+  unfold readStdin
+  cases he : wd.stdinErr with
+  | none => simp [he] at h
+  | some c => simp [readFail, caught_read X _ c hn (hr.stdin c he)]
+
+theorem getTargetText_text (F : Facts) (X : Ext T S R) (a : Argv) (wd : World) (tt : String)
     (h : refTargetText X a wd = .text tt) :
-    ∃ o, getTargetText X a wd = .ok o ∧ (o = some tt ∨ (tt.isEmpty = true ∧ truthy o = false)) := by
+    ∃ o, getTargetText F X a wd = .ok o ∧ (o = some tt ∨ (tt.isEmpty = true ∧ truthy o = false)) := by
   unfold refTargetText at h
   unfold getTargetText
   dsimp only
@@ -124,7 +213,7 @@ theorem getTargetText_text (X : Ext T S R) (a : Argv) (wd : World) (tt : String)
     obtain ⟨hp', hne⟩ := nonEmpty_some hp
     rw [h1, h2, hfd, hp']
     by_cases hd : t = "-"
-    · subst hd; simp at h; subst h; exact ⟨_, by simp, Or.inl rfl⟩
+    · subst hd; simp at h; exact ⟨_, by simp [readStdin_text F X wd tt h], Or.inl rfl⟩
     · simp [hd] at h; subst h; exact ⟨_, by simp [hd], Or.inl rfl⟩
   · -- target file only
     rename_i p hp hf
@@ -134,7 +223,7 @@ theorem getTargetText_text (X : Ext T S R) (a : Argv) (wd : World) (tt : String)
     obtain ⟨hf', hne⟩ := nonEmpty_some hf
     rw [h1, h2, hpd, hf']
     by_cases hd : p = "-"
-    · subst hd; simp at h; subst h; exact ⟨_, by simp, Or.inl rfl⟩
+    · subst hd; simp at h; exact ⟨_, by simp [readStdin_text F X wd tt h], Or.inl rfl⟩
     · simp only [beq_iff_eq, hd, if_false] at h
       cases hrd : X.readFile p with
       | none => rw [hrd] at h; cases h
@@ -148,17 +237,27 @@ theorem getTargetText_text (X : Ext T S R) (a : Argv) (wd : World) (tt : String)
     rw [h1, h2, hpd, hfd]
     cases htty : wd.stdinTty with
     | true => simp [htty] at h
-    | false => simp [htty] at h; subst h; exact ⟨_, by simp, Or.inl rfl⟩
+    | false => simp [htty] at h; exact ⟨_, by simp [readStdin_text F X wd tt h], Or.inl rfl⟩
   · cases h
 
-theorem getTargetText_unreadable (X : Ext T S R) (a : Argv) (wd : World)
-    (h : refTargetText X a wd = .unreadable) :
-    getTargetText X a wd = .error (.usage .targetFileUnreadable) := by
+/-- an unreadable target (file or standard input) ends the middleware in a UsageError -/
+theorem getTargetText_unreadable {F : Facts} (w : WFParts F) (X : Ext T S R) (a : Argv) (wd : World)
+    (hr : ReadErrOk X wd) (h : refTargetText X a wd = .unreadable) :
+    ∃ u, getTargetText F X a wd = .error (.usage u) := by
   unfold refTargetText at h
   unfold getTargetText
   dsimp only
   split at h
-  · split at h <;> cases h
+  · rename_i t hp hf
+    have h1 := truthy_of_some hp
+    have h2 := truthy_of_none hf
+    have hfd := not_dash_of_nonEmpty_none hf
+    obtain ⟨hp', hne⟩ := nonEmpty_some hp
+    rw [h1, h2, hfd, hp']
+    by_cases hd : t = "-"
+    · subst hd; simp at h
+      exact ⟨.stdinUnreadable, by simp [readStdin_unreadable F X wd hr w.stdinRead h]⟩
+    · simp [hd] at h
   · rename_i p hp hf
     have h1 := truthy_of_none hp
     have h2 := truthy_of_some hf
@@ -167,17 +266,30 @@ theorem getTargetText_unreadable (X : Ext T S R) (a : Argv) (wd : World)
     rw [h1, h2, hpd, hf']
     by_cases hd : p = "-"
     · subst hd; simp at h
+      exact ⟨.stdinUnreadable, by simp [readStdin_unreadable F X wd hr w.stdinRead h]⟩
     · simp only [beq_iff_eq, hd, if_false] at h
       cases hrd : X.readFile p with
-      | none => simp [hd, hrd]
+      | none => exact ⟨.targetFileUnreadable, by simp [hd, hrd, readFail, caught_read X _ _ w.targetRead (hr.file p hrd)]⟩
       | some t => rw [hrd] at h; cases h
-  · split at h <;> cases h
+  · rename_i hp hf
+    have h1 := truthy_of_none hp
+    have h2 := truthy_of_none hf
+    have hpd := not_dash_of_nonEmpty_none hp
+    have hfd := not_dash_of_nonEmpty_none hf
+    rw [h1, h2, hpd, hfd]
+    cases htty : wd.stdinTty with
+    | true => simp [htty] at h
+    | false =>
+      simp [htty] at h
+      exact ⟨.stdinUnreadable, by simp [readStdin_unreadable F X wd hr w.stdinRead h]⟩
   · cases h
 
 /-- `mw_handle_target` on a non-empty text loads it with the loader the reference names -/
 theorem handleTarget_ref {F : Facts} (w : WFParts F) (X : Ext T S R) (a : Argv) (tt : String)
     (hne : tt.isEmpty = false) (k : String) (hk : refLoaderKind (a.targetFormat.getD "json") = some k) :
-    handleTarget F X (some tt) (a.targetFormat.getD F.targetDefault) = liftLoad (X.load k tt) := by
+    handleTarget F X (some tt) (a.targetFormat.getD F.targetDefault)
+      = liftLoad X (catchOf F (a.targetFormat.getD "json")) (X.load k tt) ∧
+    (a.targetFormat.getD "json", k) ∈ F.targetLoaders := by
   unfold handleTarget
   rw [w.targetDefault, w.targetLoaders]
   simp only [truthy, hne, Bool.not_false, Bool.not_true, Bool.false_eq_true, if_false, Option.getD_some]
@@ -251,9 +363,9 @@ def Request.argv (q : Request) : Argv :=
 /-- standard input carries the target when it is the chosen channel, anything otherwise -/
 def Request.world (q : Request) (junk : String) (tty : Bool) : World :=
   match q.tv with
-  | .dashArg | .dashFile => ⟨q.targetText, tty⟩
-  | .piped => ⟨q.targetText, false⟩
-  | _ => ⟨junk, tty⟩
+  | .dashArg | .dashFile => ⟨q.targetText, tty, none⟩
+  | .piped => ⟨q.targetText, false, none⟩
+  | _ => ⟨junk, tty, none⟩
 
 /-- the files hold the texts; file names are non-empty and not `-` -/
 def Request.FilesOk (q : Request) (X : Ext T S R) : Prop :=
@@ -267,7 +379,7 @@ theorem request_expect_texts (X : Ext T S R) (q : Request) (junk : String) (tty 
     refTargetText X q.argv (q.world junk tty) = .text q.targetText := by
   obtain ⟨hf1, hf2⟩ := hfiles
   cases hsv : q.sv <;> cases htv : q.tv <;>
-    simp_all [Request.argv, Request.world, refSpecText, refTargetText, posTexts, nonEmpty, Option.filter]
+    simp_all [Request.argv, Request.world, refSpecText, refTargetText, refStdin, posTexts, nonEmpty, Option.filter]
 
 
 end Glom.C19
